@@ -1,6 +1,5 @@
 #!/bin/bash
-# usage: r3intake.sh Cxx : copy the round-3 seeds of a property from the seeder's worktree into /verif/seeded, confirm and test them
-export GOFLAGS=-mod=mod GOPROXY=off GOSUMDB=off GOTOOLCHAIN=local
+# usage: r3copy.sh Cxx : copy round-3 seeds from the seeder's worktree into /verif/seeded (no confirmation), remove the worktree
 P=$1; W=/tmp/seed3-$P
 last=$(ls -d /verif/seeded/$P-* 2>/dev/null | sed 's/.*-//' | sort -n | tail -1); last=${last:-0}
 for k in 1 2 3; do
@@ -16,8 +15,6 @@ m['round']=3; m['seeder_slot']=$k
 m['demo_cmd']=m.get('demo_cmd','').replace('seeded/$k/','seeded/$P-$last/')
 json.dump(m,open(f,'w'),indent=1)
 PY
-  NOSUITE=1 /verif/lib/seedconfirm.sh $D > $D/confirm.log 2>&1
-  SEED=11 /verif/lib/seedtest.sh $D $P > $D/test11.log 2>&1
-  echo "== $P-$last"; cat $D/confirm.log | cut -c1-300; cat $D/test11.log | cut -c1-300
+  echo "copied $D"
 done
 git -C /repo worktree remove --force $W 2>/dev/null; rm -rf $W
